@@ -114,6 +114,10 @@ def run(an: Analysis, rep):
                                                            "unreferenced entries is dropped leaves a gap in that table, and normalize(x).to_code() raises instead of giving an equivalent code object"))
     rep.run(c06.r06n, an, SharedRules(rep, "R05.Y", "normalize folded over witness data full of artefacts (shared with C06's R06.N): every public field - instructions, operands, jump targets, lines, "
                                                    "signature, docstring, free variables, names - comes back as given, at every depth; only private fields change"))
+    shg5 = SharedRules(rep, "R05.G", "the decoder's instruction function and parser folded over witness code units (shared with C02's R02.F / R02.8): normalize().to_code() can only mean what c "
+                                     "means if from_code read c as CPython does - closure variables by position, operands of any width")
+    rep.run(c02.r02f, an, shg5)
+    rep.run(c02.r028, an, shg5)
     she = SharedRules(rep, "R05.E", "the encoder's layout and table folded over witness block lists without overrides - the data normalize returns (shared with C03's R03.E / R03.T / R03.Y): "
                                     "the code written for it reads back as the same instructions, operands and jump structure")
     rep.run(c03.r03e, an, she)
